@@ -114,8 +114,8 @@ def gen_case(rng, tier):
     k = rng.randint(2, 4) if max_n <= 30 else 1
     case_ = {
         "inputs": {"G": G, "H": H, "iso": iso, "mso": list(rng.choice(mg.MSO_CHOICES)),
-                   "repG": {"fmt": rng.choice(("csr", "dense", "list")), "fill": rng.choice(mg.FILLS), "dtype": "int"},
-                   "repH": {"fmt": rng.choice(("csr", "dense", "list")), "fill": rng.choice(mg.FILLS), "dtype": "int"}},
+                   "repG": {"fmt": rng.choice(("csr", "dense", "list", "csr", "dense", "list", "bsr", "lil", "dok", "coo")), "fill": rng.choice(mg.FILLS), "dtype": "int"},
+                   "repH": {"fmt": rng.choice(("csr", "dense", "list", "csr", "dense", "list", "bsr", "lil", "dok", "coo")), "fill": rng.choice(mg.FILLS), "dtype": "int"}},
         "config": {"evals": [{"mode": rng.choice(simrandom.MODES), "k": rng.randrange(1000)} for _ in range(k)],
                    "use_default_mso": rng.random() < 0.3, "size_free_only": big},
         "ops": [],
